@@ -124,6 +124,7 @@ def info(t, tvmap=None):
         tv = {te.Self: base}
         if hasattr(typing, "Self"):
             tv[typing.Self] = base
+        tv.update(inherited_tvmap(base))
         params = getattr(base, "__parameters__", ())
         for p, x in zip(params, a):
             tv[p] = x
@@ -178,6 +179,19 @@ def _container(base, a, a0):
     if issubclass(base, collections.abc.Sequence):
         return TI("seq", list, args=(a0,))
     return None
+
+
+def inherited_tvmap(cls):
+    """type variables of generic bases bound by subclassing: class EnvStatus(Env[HTTPStatus]) binds Env's parameter"""
+    out = {}
+    for klass in cls.__mro__:
+        for b in getattr(klass, "__orig_bases__", ()):
+            o = typing.get_origin(b)
+            if o is None or o is typing.Generic:
+                continue
+            for p, x in zip(getattr(o, "__parameters__", ()), typing.get_args(b)):
+                out.setdefault(p, out.get(x, x) if isinstance(x, typing.TypeVar) else x)
+    return out
 
 
 def dc_fields(cls, tvmap=None):
